@@ -188,7 +188,7 @@ func eq(a []tlog.Hash, b []rfc6962.Hash) bool {
 }
 
 func Run(r *fw.Run) {
-	tmax := r.Pick(70, 160)
+	tmax := r.Pick(130, 300)
 	r.Bounds["t_max"] = tmax
 	r.Bounds["patterns"] = []string{"all distinct", "all equal", "period 3"}
 	r.Bounds["closed_world"] = "t<=5, pool of 8 true node hashes, all proofs of length 0..4, all n, roots and leaves over the pool"
